@@ -11,7 +11,7 @@ From Coq Require Import String Ascii List Bool NArith ZArith.
 Import ListNotations.
 Open Scope Z_scope.
 
-Inductive cty := TU8 | TS8 | TU16 | TS16.
+Inductive cty := TU8 | TS8 | TU16 | TS16 | TPtr.   (* TPtr: pointer to char, a 16-bit address *)
 
 Inductive binop := Add | Sub | BAnd | BOr | BXor | Shl | Shr | Mul | Div
                  | OEq | ONe | OLt | OLe | OGt | OGe | LAnd | LOr.
@@ -27,7 +27,8 @@ Inductive expr :=
 | EInc (k : inck) (lv : expr)
 | EAsg (op : option binop) (lv e : expr)
 | ECall (f : string) (args : list expr)
-| ETern (c a b : expr).
+| ETern (c a b : expr)
+| EAddr (x : string).      (* &x *)
 
 Inductive stmt :=
 | SExpr (e : expr)
@@ -41,7 +42,7 @@ Inductive stmt :=
 | SReturn (e : option expr)
 | SLoad (e : expr) | SStore (e : expr) | SStrobe (x : string) | SCsleep (n : Z) | SAsm (t : string).
 
-Record vinfo := mkV { v_ty : cty; v_len : option Z; v_const : bool }.
+Record vinfo := mkV { v_ty : cty; v_len : option Z; v_const : bool; v_addr : Z }.   (* v_addr: where the layout puts it *)
 
 Record func := mkF { f_name : string; f_params : list string; f_ret : option cty; f_body : list stmt }.
 
@@ -83,14 +84,14 @@ Definition wrap_s (bits v : Z) : Z :=
 
 Definition norm (t : cty) (v : Z) : Z :=
   match t with
-  | TU8 => wrap_u 8 v | TS8 => wrap_s 8 v | TU16 => wrap_u 16 v | TS16 => wrap_s 16 v
+  | TU8 => wrap_u 8 v | TS8 => wrap_s 8 v | TU16 | TPtr => wrap_u 16 v | TS16 => wrap_s 16 v
   end.
 
 (** how the compiler computes a value: in 8 bits (unsigned / signed) or in 16 bits *)
 Inductive wclass := W8u | W8s | W16u | W16s | WLit.
 
 Definition wclass_of (t : cty) : wclass :=
-  match t with TU8 => W8u | TS8 => W8s | TU16 => W16u | TS16 => W16s end.
+  match t with TU8 => W8u | TS8 => W8s | TU16 | TPtr => W16u | TS16 => W16s end.
 
 Record value := mkVal { val : Z; wc : wclass; taint : bool }.
 
@@ -189,7 +190,7 @@ Section Exec.
   Variable prog : program.
 
   Definition var_info (x : string) : option vinfo :=
-    if String.eqb x "X" || String.eqb x "Y" then Some (mkV TU8 None false)
+    if String.eqb x "X" || String.eqb x "Y" then Some (mkV TU8 None false (-1))
     else lookup x (p_vars prog).
 
   Definition read_cell (s : state) (x : string) (i : Z) (vi : vinfo) : value :=
@@ -198,6 +199,20 @@ Section Exec.
 
   Definition write_cell (s : state) (x : string) (i : Z) (vi : vinfo) (v : Z) : state :=
     mkSt (sset (st_mem s) x i (norm (v_ty vi) v)) (st_trace s) (st_steps s).
+
+  (** the char cell an address denotes: the variable of the layout whose extent contains it *)
+  Fixpoint cell_at (vars : list (string * vinfo)) (a : Z) : option (string * Z * vinfo) :=
+    match vars with
+    | [] => None
+    | (y, vi) :: r =>
+        let n := match v_len vi with Some k => k | None => 1 end in
+        match v_ty vi with
+        | TU8 | TS8 =>
+            if (0 <=? v_addr vi) && (v_addr vi <=? a) && (a <? v_addr vi + n) then Some (y, a - v_addr vi, vi)
+            else cell_at r a
+        | _ => cell_at r a
+        end
+    end.
 
   (** resolve an lvalue to (name, index, info); the index must be clean and in bounds *)
   Definition lv_target (eval : expr -> state -> outcome (value * state)) (lv : expr) (s : state)
@@ -220,7 +235,19 @@ Section Exec.
                 let '(iv, s1) := r in
                 do i <- clean iv;
                 if (0 <=? i) && (i <? n) then Ok (a, i, vi, s1) else Unsupported "index out of bounds"
-            | None => Unsupported "indexing a scalar"
+            | None =>
+                match v_ty vi with
+                | TPtr =>
+                    (* p[i]: the char at address p + i, wherever the layout says that is *)
+                    do r <- eval ie s;
+                    let '(iv, s1) := r in
+                    do i <- clean iv;
+                    match cell_at (p_vars prog) (wrap_u 16 (sget (st_mem s1) a 0 + i)) with
+                    | Some (y, j, vy) => Ok (y, j, vy, s1)
+                    | None => Unsupported "pointer outside the variables"
+                    end
+                | _ => Unsupported "indexing a scalar"
+                end
             end
         | None => Unsupported "unknown array"
         end
@@ -234,7 +261,23 @@ Section Exec.
         let ev := eval f in
         match e with
         | ENum n => Ok (mkVal (c_norm (lit_class n) n) (lit_class n) false, s)
-        | EVar _ | EIdx _ _ =>
+        | EAddr x =>
+            match var_info x with
+            | Some vi => if 0 <=? v_addr vi then Ok (mkVal (v_addr vi) W16u false, s) else Unsupported "address of a register"
+            | None => Unsupported "unknown variable"
+            end
+        | EVar x =>
+            match var_info x with
+            | Some vi =>
+                match v_len vi with
+                | Some _ => Ok (mkVal (v_addr vi) W16u false, s)      (* an array name is its address *)
+                | None => do t <- lv_target ev e s;
+                          let '(x', i, vi', s1) := t in
+                          Ok (read_cell s1 x' i vi', s1)
+                end
+            | None => Unsupported "unknown variable"
+            end
+        | EIdx _ _ =>
             do t <- lv_target ev e s;
             let '(x, i, vi, s1) := t in
             Ok (read_cell s1 x i vi, s1)
